@@ -2,6 +2,7 @@
 //! side, independent of fontc's writers); tuple scalars, IUP, ItemVariationStore evaluation and
 //! composite resolution are implemented here.
 pub mod outline;
+pub mod validate;
 pub mod sfnt;
 
 use read_fonts::tables::glyf::Glyph as RfGlyph;
@@ -47,6 +48,7 @@ impl<'a> Font<'a> {
             let st = cmap.subtable(i as u16).map_err(|e| format!("cmap subtable {i}: {e}"))?;
             let _ = rec;
             for (cp, gid) in st.iter() {
+                if cp == 0xFFFF && gid.to_u32() == 0 { continue; } // the format 4 terminator segment, not a mapping
                 if let Some(prev) = out.insert(cp, gid.to_u32()) { if prev != gid.to_u32() { return Err(format!("cmap subtables disagree on U+{cp:04X}: {prev} vs {}", gid.to_u32())); } }
             }
         }
